@@ -341,8 +341,38 @@ func TestVerifC01(t *testing.T) {
 		}
 		for _, ep := range a.Arch {
 			n++
-			c01run(t, out, ep, ep.spec(seed*1000+int64(n), 1+n%6), n, "generated")
+			spec := ep.spec(seed*1000+int64(n), 1+n%6)
+			note := "generated"
+			if n%2 == 0 {
+				// "any CAR header length": every second archive has a header longer than 127 bytes (two-byte length prefix)
+				spec.LongHeader = true
+				note = "generated-long-header"
+			}
+			c01run(t, out, ep, spec, n, note)
 		}
+	}
+	// directed: blocks in the first and in the last slot of their epoch (and next to them)
+	for k, e := range []uint64{0, 3} {
+		first, last := e*432000, e*432000+431999
+		slots := []uint64{first + 1, first + 2, last - 1, last}
+		if e > 0 {
+			slots = []uint64{first, first + 1, last - 1, last}
+		}
+		var blocks []aBlock
+		parent := slots[0] - 1
+		if e == 0 {
+			parent = 0
+		}
+		for i, sl := range slots {
+			blocks = append(blocks, aBlock{Slot: sl, Parent: parent, Blocktime: int64(1600000000 + i), Height: -1,
+				Entries: []aEntry{{Txs: []aTx{{Sig: i + 1, Accts: []int{1}, Loaded: []int{}, Dframes: 1, Mframes: 1}}}}})
+			parent = sl
+		}
+		ep := aEpoch{Epoch: e, Blocks: blocks}
+		n++
+		spec := ep.spec(seed+100+int64(k), 2)
+		spec.LongHeader = k == 1
+		c01run(t, out, ep, spec, n, "epoch-edge-slots")
 	}
 	// directed: transaction nodes whose CAR section length sits exactly on / next to the varint width boundaries
 	var bt []aTx
